@@ -275,6 +275,8 @@ TIE = {
     'get_parent_block': ['C02', 'C05', 'C07'],
     'mempool_verify': ['C08', 'C13'],
     'commit': ['C01', 'C02', 'C05', 'C08'],
+    # capstone: a step / run of the node built from the regenerated handlers is a step / the run of the model (Tie_step.v)
+    'step': ['C01', 'C02', 'C03', 'C05', 'C08', 'C09', 'C10'],
 }
 # messages.rs verifiers, aggregator.rs makers and entry points (tools/skelagg.py -> coq/GenAgg.v)
 TIE.update({
